@@ -60,6 +60,10 @@ def configs(tier):
     for strat in ('joint', 'product'):
         add(group='inc', cls='IncrementalSage', d=2, m=2, q=1, imputer=strat, storage='batch', context_key=True, _cost=16)
         add(group='inc', cls='IncrementalPFI', d=2, m=2, q=1, imputer=strat, storage='batch', context_key=True, _cost=16)
+    add(group='inc', cls='IncrementalPFI', d=2, m=3, q=1, q_call=2, imputer='joint', storage='batch', _cost=81)
+    add(group='inc', cls='IncrementalPFI', d=2, m=2, q=2, q_call=1, imputer='product', storage='batch', _cost=16)
+    add(group='inc', cls='IncrementalSage', d=2, m=2, q=1, q_call=2, imputer='joint', storage='batch', _cost=64)
+    add(group='inc', cls='IncrementalSage', d=2, m=2, q=2, q_call=1, imputer='joint', storage='batch', _cost=16)
     for st in ('interval', 'geometric', 'uniform'):
         add(group='inc', cls='IncrementalSage', d=2, m=2, q=1, imputer='joint', storage=st, _cost=16)
         add(group='inc', cls='IncrementalPFI', d=2, m=3, q=1, imputer='joint', storage=st, _cost=16)
@@ -151,7 +155,11 @@ def _inc_path(env, cfg, ctx):
     if cls is IncrementalSage:
         real_m = ex._marginal_loss_tracker.update
         ex._marginal_loss_tracker.update = lambda v: (marg.append(v), real_m(v))[1]
-    guarded(env, 'explain_one', ex.explain_one, b['x'], b['y'], update_storage=False)
+    kw = {}
+    if 'q_call' in cfg:                      # the number of inner samples is overridden for this call only
+        kw['n_inner_samples'] = cfg['q_call']
+        b = dict(b, q=cfg['q_call'])
+    guarded(env, 'explain_one', ex.explain_one, b['x'], b['y'], update_storage=False, **kw)
     if len(fed) != 1:
         env.fail('importance_tracker_fed_once', f"{len(fed)} updates")
         return None
